@@ -762,6 +762,9 @@ func (r *lcRig) sendSignal(s os.Signal) {
 			}
 			ch <- s
 		} else {
+			if name == "TERM" && r.shutSig < 0 {
+				name = "TERM-first" // no shutdown signal has been delivered yet: with this one the request to shut down is lost
+			}
 			r.ev("sig-dropped", "", name)
 			r.c.Probe("signal-dropped-channel-full")
 		}
@@ -971,6 +974,15 @@ func (r *lcRig) check() {
 			if n := count("serve-begin", a.neu, lo, hi); n > 0 && a.kind != rkListen {
 				c.Violate("C16/discarded-instance-served", rkNames[a.kind], "failed reload: discarded instance %s started serving", a.neu)
 			}
+		}
+	}
+	// (f') a shutdown signal is never lost: while the posix handler is busy with a reload, further
+	// signals wait in its channel; a SIGTERM that finds the channel full is discarded by os/signal
+	// and the shutdown it asks for never happens
+	for _, e := range tr {
+		if e.kind == "sig-dropped" && e.arg == "TERM-first" {
+			c.Violate("C16/shutdown-signal-lost", "TERM/handler-busy-and-channel-full", "a SIGTERM (the first shutdown signal of the history) was discarded because the signal channel was full while its handler was busy with a reload: the process is not shut down, the live instance's shutdown callbacks never run for it")
+			break
 		}
 	}
 	// (g) process shutdown: the live instance's shutdown and final-shutdown
